@@ -33,7 +33,7 @@ class C28(vlib.Spec):
 
     def gen(self, rng, tier, n):
         fl = self.flows()
-        return hydro.emit_cases(fl) + hydro.gen_partition_cases(rng, tier, fl)
+        return hydro.corpus_cases(self.prop) + hydro.emit_cases(fl) + hydro.gen_partition_cases(rng, tier, fl)
 
     def n_cases(self, tier):
         return 0
